@@ -1267,7 +1267,7 @@ class World:
         rec["tainted"] = tp.tainted(root)
         rec["layers"] = sorted({(tp.nodes[i].params or {}).get("layer", "?") for i in tp.upstream(root) if tp.nodes[i].opaque})
         cot, inf = tp.backward(root, rec["seed"])
-        if self.cfg.get("fd_sample") and not inf["nondiff"] and not inf["opaque"] and not self.exact_only_ints():
+        if self.cfg.get("fd_sample") and not inf["nondiff"] and not inf["opaque"] and np.dtype(self.tol_dtype) == np.float64:
             probs = tp.check_against_fd(root)
             self.count("tape.fd_checked")
             if probs:
